@@ -65,7 +65,7 @@ func dotLabel(line string) (string, bool) {
 	return unescapeDot(line[j:k]), true
 }
 
-// LoadDot reads a TLC dot dump. Self loops (stuttering) are dropped.
+// LoadDot reads a TLC dot dump (self loops are kept: they are actions that leave the state unchanged).
 func LoadDot(path string) (*Graph, error) {
 	f, err := os.Open(path)
 	if err != nil {
@@ -108,9 +108,6 @@ func LoadDot(path string) (*Graph, error) {
 				return nil, fmt.Errorf("dot: edge without label: %s", line)
 			}
 			a, b := node(id), node(to)
-			if a == b {
-				continue
-			}
 			g.Edges = append(g.Edges, Edge{From: a, To: b, Label: lab})
 			continue
 		}
